@@ -238,13 +238,13 @@ func (el *eventloop) open(c *conn) error {
 	}
 	if out != nil {
 		if err := c.open(out); err != nil {
-			return err
+			return el.close(c, os.NewSyscallError("write", err))
 		}
 	}
 
 	if !c.outboundBuffer.IsEmpty() && !el.engine.opts.EdgeTriggeredIO {
 		if err := el.poller.ModReadWrite(&c.pollAttachment, false); err != nil {
-			return err
+			return el.close(c, err)
 		}
 	}
 
@@ -354,7 +354,11 @@ loop:
 	// All data have been sent, it's no need to monitor the writable events for LT mode,
 	// remove the writable event from poller to help the future event-loops if necessary.
 	if !isET && c.outboundBuffer.IsEmpty() {
-		return el.poller.ModRead(&c.pollAttachment, false)
+		if err = el.poller.ModRead(&c.pollAttachment, false); err != nil {
+			// Staying open with the write interest still armed would spin on EPOLLOUT.
+			return el.close(c, err)
+		}
+		return nil
 	}
 
 	// To prevent infinite writing in ET mode and starving other events,
